@@ -80,7 +80,7 @@ def setup():
 
 
 def budget(tier):
-    return {'quick': dict(seconds=60, cases=2400, shrink_s=15, search_s=5),
+    return {'quick': dict(seconds=60, cases=2000, shrink_s=15, search_s=5),
             'thorough': dict(seconds=420, cases=40000, shrink_s=40, search_s=20)}[tier]
 
 
@@ -462,7 +462,11 @@ def apply(W: World, line: str):
             c = pickle.loads(pickle.dumps(obj))
         except Exception as e:
             raise OracleFail(f'pickleobj/{kind}:raises-{type(e).__name__}', f'pickling round trip raised {e!r}')
-        a, b = obj_state(kind, c), obj_state(kind, obj)
+        b = obj_state(kind, obj)
+        try:
+            a = obj_state(kind, c)
+        except Exception as e:
+            raise OracleFail(f'pickleobj/{kind}:unusable-{type(e).__name__}', f'the unpickled {kind} cannot be observed: {e!r}')
         if a != b:
             diff = [k for k in b if a.get(k) != b[k]]
             raise OracleFail(f'pickleobj/{kind}:{diff[0]}', f'unpickled {kind} differs in {diff}: {[(a.get(k), b[k]) for k in diff][:2]}')
@@ -533,6 +537,7 @@ def run_ops(ops):
                 model_in.append(line); outs.append('FAIL ' + f.sig)
             break
         except Exception as e:
+            if line.startswith('pickleobj'): raise
             o = 'err=' + errname(e)
         model_in.append(line); outs.append(o)
         if o.startswith('err='): dead = True
